@@ -127,6 +127,14 @@ func normEntry(cwd, p string) (string, bool) {
 		return "", false
 	}
 	switch {
+	case !rec && filepath.Base(d) == "...":
+		// a PLAIN entry for a directory that is literally named `...` (`sub/.../.`, `sub/...//.`: the
+		// last element of the entry as written is `.`, so findFile scans that one directory and nothing
+		// below it, and nothing of `sub` itself).  The clean relative spelling of that directory ends in
+		// `...` and would be read - by Go, the model and the specification alike - as `sub, recursively`:
+		// the entry has no clean relative form (false alarm of the thorough tier, seed 1; such lookups are
+		// still judged on ms.Path and by the fresh Modules value whose Path is assigned the entries as written).
+		return "", false
 	case !rec:
 		return d, true
 	case d == ".":
